@@ -1793,7 +1793,13 @@ class FrozenSet(Opcode):
         else:
             raise ValueError("Exhausted the stack while searching for a MarkObject!")
 
-        interpreter.stack.append(ast.Constant(ast.Set(elts=objs[::-1])))
+        interpreter.stack.append(
+            ast.Call(
+                ast.Name("frozenset", ast.Load()),
+                [ast.List(elts=objs[::-1], ctx=ast.Load())],
+                [],
+            )
+        )
 
 
 class Dup(Opcode):
